@@ -43,6 +43,9 @@ type Fail struct {
 	Kind     string
 	Msg      string // first line of the expected error message (traps, panics)
 	ExitCode uint32
+	// Rethrown: the failure reached this point by a host function panicking with the error of a
+	// re-entrant call (frames from here outward unwind through the ordinary panic path)
+	Rethrown bool
 }
 
 func (f *Fail) String() string {
@@ -61,6 +64,8 @@ type Event struct {
 	Func  string   // debug name
 	Vals  []uint64 // i32/f32 in the low 32 bits, i64/f64 full width
 	Chain []string // before only: call chain from the callee outward, within the current call engine
+	// Exhaustion: abort only: the frame is unwound by stack exhaustion inside its own call engine
+	Exhaustion bool
 }
 
 func (e Event) String() string {
@@ -75,6 +80,7 @@ func (e Event) String() string {
 
 // World executes plans over model instances.
 type World struct {
+	Overflows int // stack exhaustions predicted so far
 	// Host is the model-side semantics of the host function: it is called at
 	// every AHost atom and decides (drawing from the tape and recording the
 	// decision for the real host function to replay) what the host does.
@@ -130,6 +136,7 @@ const RecLimit = 1000
 // never carry listeners).
 func (w *World) APICallRec(in *Inst, r int, x int32) (int32, *Fail) {
 	if x > RecLimit {
+		w.Overflows++
 		return 0, &Fail{Kind: "stack-overflow", Msg: "wasm error: stack overflow"}
 	}
 	if x < 0 {
@@ -165,7 +172,7 @@ func (w *World) call(in *Inst, fn int, x int32) (res int32, fail *Fail) {
 		w.Depth--
 		w.chain = w.chain[:len(w.chain)-1]
 		if fail != nil {
-			w.emit(in, Event{Kind: "abort", Func: name})
+			w.emit(in, Event{Kind: "abort", Func: name, Exhaustion: fail.Kind == "stack-overflow" && !fail.Rethrown})
 		} else {
 			w.emit(in, Event{Kind: "after", Func: name, Vals: []uint64{uint64(uint32(res))}})
 		}
@@ -246,6 +253,13 @@ func (w *World) call(in *Inst, fn int, x int32) (res int32, fail *Fail) {
 			if in.Pages+int(a.A) <= MaxPages {
 				in.Pages += int(a.A)
 			}
+		case AHost2:
+			w.chain = append(w.chain, "env.h2")
+			w.emit(nil, Event{Kind: "before", Func: "env.h2", Vals: []uint64{uint64(uint32(acc))}, Chain: w.curChain()})
+			w.chain = w.chain[:len(w.chain)-1]
+			r0, r1 := Host2(acc)
+			w.emit(nil, Event{Kind: "after", Func: "env.h2", Vals: []uint64{uint64(uint32(r0)), uint64(uint32(r1))}})
+			acc = r0 + r1
 		case AFarStore:
 			if int(a.A) >= in.Pages {
 				return 0, trap(TrapOOBStore)
@@ -267,6 +281,7 @@ func (w *World) call(in *Inst, fn int, x int32) (res int32, fail *Fail) {
 				n = (acc&1)<<30 | (acc & 7)
 			}
 			if n > RecLimit {
+				w.Overflows++
 				return 0, &Fail{Kind: "stack-overflow", Msg: "wasm error: stack overflow"}
 			}
 			acc = n
@@ -317,3 +332,6 @@ func (w *World) call(in *Inst, fn int, x int32) (res int32, fail *Fail) {
 	}
 	return acc + int32(fn) + 1, nil
 }
+
+// Host2 is the pure function behind env.h2.
+func Host2(x int32) (int32, int32) { return x + 1, x * 2 }
